@@ -117,7 +117,8 @@ PROPS = {
                  'compute_spectrum_slot_vs_bandwidth gives enough whole slots per channel. compute_n_m with two fully user-fixed (N, M) entries: '
                  'both used verbatim and disjoint, or the request is left unserved; through pth_assign_spectrum: accepted => both ranges were '
                  'free and occupancy = old + both ranges, blocked => no label and no spectrum change; one fixed and one free entry: the '
-                 'fixed one verbatim or nothing served, the free one takes exactly what is left on slots that were free, inside the guard bands.',
+                 'fixed one verbatim or nothing served, the free one takes exactly what is left on slots that were free, inside the guard bands. '
+                 'build_path_oms_id_list returns exactly the OMS of the line elements of the path; OMS.add_service accumulates.',
         'level_note': 'structure bounds of the compute_n_m / pth_assign_spectrum contracts: one request with one (N, M) '
                       'entry over a two-OMS list (path over one or both); map sizes, extents and contents unbounded. '
                       'The history clause (occupancy = union of accepted ranges, pairwise disjoint) follows by induction '
@@ -143,7 +144,8 @@ PROPS = {
                  'arbitrary map (any number of maps) and create_oms_bitmap (1-3 common bands) proved for all extents: '
                  'every map covers n(f_min)..n(f_max), usable exactly inside the common bands, indices unique and '
                  'consecutive, old occupancy kept at its index; nvalue_to_frequency (G.694.1 rule), slots_to_m / mvalue_to_slots / '
-                 'm_to_freq and Bitmap.getn / geti are proved mutually inverse.',
+                 'm_to_freq and Bitmap.getn / geti are proved mutually inverse; OMS.add_element / update_spectrum keep the element order and '
+                 'start from a well-formed all-free map.',
         'level_note': 'the OMS partition of the graph (build_oms_list walk) is a bounded stand-in on '
                       'designed topologies <= 4 ROADM sites + the shipped multiband example; reversed_oms is proved for three OMS '
                       'with arbitrary end names (first opposite direction, unpaired recorded as None); '
@@ -258,7 +260,7 @@ PROPS = {
                  'NO_PATH_WITH_CONSTRAINT, only-LOOSE unsatisfiable -> unconstrained shortest path, explicit-path shortcut must '
                  'respect the whole include list; ispart = order-preserving sub-sequence. Everything else of the statement '
                  '(real graph search, minimal fibre length against an independent all-simple-paths oracle, route list clean-up, '
-                 'reverse paths) is a bounded stand-in on small designed meshes.',
+                 'reverse paths) is a bounded stand-in on small designed meshes. is_adjacent (used by explicit_path) is true exactly when the first line ends at the object the second starts with.',
         'level_note': 'NOT an unbounded proof: the deductive obligations quantify over all node identities/request ids but over a '
                       'fixed candidate-list shape (3 candidates, include lists of length <= 2); networkx shortest_simple_paths / '
                       'dijkstra_path / all_simple_paths are assumed contracts; optimality and correct_json_route_list are only '
@@ -274,7 +276,8 @@ PROPS = {
     'C12': {
         'level': 'other',
         'claim': 'isdisjoint proved to return 0 exactly when two three-node paths have no common directed link (symbolic node '
-                 'identities; result in {0,1}); the statement itself - synchronised requests never share a ROADM-to-ROADM link '
+                 'identities; result in {0,1}); deduplicate_disjunctions keeps a repeated synchronisation vector once and different ones all; '
+                 'the statement itself - synchronised requests never share a ROADM-to-ROADM link '
                  'in either direction, DisjunctionError otherwise, pair completeness - is decided only by a bounded stand-in '
                  'running the real compute_path_dsjctn on small designed meshes against an independent oracle.',
         'level_note': 'NOT an unbounded proof: compute_path_dsjctn (250 lines of nested candidate pruning over id()-keyed dicts) '
